@@ -427,11 +427,47 @@ func (r *Reader) Resolve(obj core.Object) (core.Object, error) {
 
 // ResolveDeep recursively resolves all indirect references in an object
 // Implements pages.ObjectResolver interface
+//
+// The objects of a PDF form a graph, not a tree: every page refers to its
+// /Parent, whose /Kids lists the page again, and any object may be referenced
+// from many places. A reference to an object that is being resolved further up
+// is therefore left as it is (following it again would never end), an object
+// referenced several times is resolved once and its result shared (resolving it
+// once per path is exponential in the depth of the graph), and references nested
+// deeper than maxResolveDepth objects are an error.
 func (r *Reader) ResolveDeep(obj core.Object) (core.Object, error) {
-	// First resolve if it's a reference
-	resolved, err := r.Resolve(obj)
-	if err != nil {
-		return nil, err
+	return r.resolveDeep(obj, make(map[core.IndirectRef]core.Object), make(map[core.IndirectRef]bool), 0)
+}
+
+// maxResolveDepth bounds the recursion of ResolveDeep (arrays, dictionaries and
+// references each count as one level).
+const maxResolveDepth = 2000
+
+func (r *Reader) resolveDeep(obj core.Object, done map[core.IndirectRef]core.Object, active map[core.IndirectRef]bool, depth int) (core.Object, error) {
+	if depth > maxResolveDepth {
+		return nil, fmt.Errorf("references nested deeper than %d levels", maxResolveDepth)
+	}
+
+	resolved := obj
+	if ref, ok := obj.(core.IndirectRef); ok {
+		if res, ok := done[ref]; ok {
+			return res, nil
+		}
+		if active[ref] {
+			return ref, nil // leads back to an object being resolved: leave the reference
+		}
+		target, err := r.ResolveReference(ref)
+		if err != nil {
+			return nil, err
+		}
+		active[ref] = true
+		res, err := r.resolveDeep(target, done, active, depth+1)
+		delete(active, ref)
+		if err != nil {
+			return nil, err
+		}
+		done[ref] = res
+		return res, nil
 	}
 
 	// Recursively resolve based on type
@@ -439,7 +475,7 @@ func (r *Reader) ResolveDeep(obj core.Object) (core.Object, error) {
 	case core.Array:
 		result := make(core.Array, len(v))
 		for i, elem := range v {
-			resolvedElem, err := r.ResolveDeep(elem)
+			resolvedElem, err := r.resolveDeep(elem, done, active, depth+1)
 			if err != nil {
 				return nil, err
 			}
@@ -450,7 +486,7 @@ func (r *Reader) ResolveDeep(obj core.Object) (core.Object, error) {
 	case core.Dict:
 		result := make(core.Dict)
 		for key, val := range v {
-			resolvedVal, err := r.ResolveDeep(val)
+			resolvedVal, err := r.resolveDeep(val, done, active, depth+1)
 			if err != nil {
 				return nil, err
 			}
